@@ -234,3 +234,27 @@ PROPS["C03"] = {
             thorough={"cases": 100000, "size": 200, "shards": 16}),
     ],
 }
+
+PROPS["C15"] = {
+    "level": "exploration",
+    "technique": "property-based testing (rapidcheck) + deterministic truncation / type / length sweeps against an independent TECMP parse with MUST / NONE / EITHER expectations",
+    "rule": "cases = TECMP frames from independent builders: arbitrary header fields, message type over all 256 values, data type over "
+            "all 65536 (thorough) values, CAN / CAN-FD (0..64 data bytes, optional CRC / trailer), LIN, capture-module status, bus status "
+            "(0..40 entries) in consistent form and with inner length beyond the buffer, cut at every offset, payload length 0 / too "
+            "large; non-trivial = a MUST case with data length > 0 or >= 1 status packet, or a NONE case of an unsupported kind / not "
+            "fitting inner length with a non-empty payload; distinct = distinct serialized frames",
+    "assumptions": COMMON_ASSUMPTIONS + ["EITHER (not asserted): status messages with a non-zero data type field, inner lengths that fit the buffer "
+                                         "but not the declared payload length, arbitration id words with bits 29/30 set, complete bus entries after "
+                                         "the declared payload length",
+                                         "payload type of converted CAN frames is only required to be CAN or CAN-FD (the mapping is not stated)"],
+    "level_text": "Generated-input search and deterministic sweeps: expected packets come from an independent big-endian parse of the "
+                  "TECMP bytes; supported well-formed messages must convert to exactly the listed packets (ids, timestamp, data, "
+                  "checksum, serial / version strings, per-interface counters), unsupported or non-fitting ones must yield none. "
+                  "Both entry points (Decoder::decode and TECMP::Decoder::Decode) are compared.",
+    "level_note": "Trusted: harness/common/tecmp.h tecmpReference (layout cross-checked against the TECMP captures in the repo's tests).",
+    "stages": [
+        pbt("sweeps", "pbt_C15", mode="enum", quick={}, thorough={"timeout": 7200}),
+        pbt("generated_frames", "pbt_C15", quick={"cases": 4000, "size": 100, "shards": 4},
+            thorough={"cases": 50000, "size": 200, "shards": 16}),
+    ],
+}
